@@ -290,6 +290,12 @@ pub fn run(tier: Tier) -> i32 {
         space.push_str(&format!(" + {} iso-classes of 5-argument graphs with <={} attacks", reps.len(), k));
         graphs.extend(reps.into_iter().map(|g| (format!("U5iso#{}", g.code()), g)));
     }
+    {
+        let k = if thorough { 6 } else { 5 };
+        let reps = crate::universe::iso_classes_augment(6, k);
+        space.push_str(&format!(" + {} iso-classes of 6-argument graphs with <={} attacks", reps.len(), k));
+        graphs.extend(reps.into_iter().map(|g| (format!("U6iso#{}", g.code()), g)));
+    }
     let tf = threshold_family();
     space.push_str(&format!(" + {} members of the hybrid-threshold family", tf.len()));
     graphs.extend(tf.into_iter().map(|(n, g)| (format!("S:{}", n), g)));
